@@ -84,10 +84,12 @@ func (v *value) set(v1, v2 uint64) error {
 	if err := os.Rename(curPath, newPath); err != nil {
 		return err
 	}
+	verifPoint("value.renamed", v, v1, v2)
 	if err := syncDir(v.dir); err != nil {
 		return err
 	}
 	v.v1, v.v2 = v1, v2
+	verifPoint("value.set", v, v1, v2)
 	return nil
 }
 
